@@ -87,9 +87,9 @@ def listing(r, order):
     return out
 
 
-def model_data(rows):
+def model_data(rows, ceiling_ft=45000):
     return dict(
-        model_type='legacy', aircraft_name='VERIF', aircraft_class='narrow', maximum_altitude_ft=45000, maximum_payload_kg=10000,
+        model_type='legacy', aircraft_name='VERIF', aircraft_class='narrow', maximum_altitude_ft=ceiling_ft, maximum_payload_kg=10000,
         number_of_engines=2, speeds=None, lto_performance=None, flight_performance=dict(cols=['fl', 'tas', 'rocd', 'mass', 'fuel_flow'], data=rows),
     )  # fmt: skip
 
@@ -115,7 +115,10 @@ def eval_case(case):
         key = (tuple(fls), c['a'], c['b'], c['cz'], c['ord'], c['cf'], c['dt'])
         if key not in _cache:
             r = rows_for(fls, c['a'], c['b'], cz=c['cz'], cf=c['cf'], dt=c['dt'])
-            _cache[key] = PerformanceModel.from_data(model_data(listing(r, c['ord'])))
+            # PerfTable.tla Ceilings: the stated maximum altitude of the aircraft is well above the table, or (what a table
+            # made from a PTF file has) exactly the top tabulated level - the table answers the same either way
+            top = (sum(fls) + c['a'] + c['b'] + c['cz'] + c['cf'] + c['dt'] + len(c['ord'])) % 2 == 1
+            _cache[key] = PerformanceModel.from_data(model_data(listing(r, c['ord']), ceiling_ft=max(fls) * 100 if top else 45000))
         pm = _cache[key]
         # the level list of the queried phase
         if c['ph'] == 'cruise':
